@@ -575,7 +575,17 @@ def run(ctx):
     deck2 = {"kind": "deck", "slides": [{"shapes": [tb(1), tb(3), tb(5)], "notes": []},
                                         {"shapes": [["title", [["r", 7]]], tb(8), ["text", [[["r", 10]]]], tb(11)], "notes": []}]}
     jobs += [{"doc": deck2, "fmt": f} for f in ("pptx", "odp")]
-    ndocs += 5
+    # a blank grid (a form to fill in) between other tables: it is a table, and the tables behind it keep their position
+    blank = ["tbl", [[[], [], []], [[], [], []]]]
+    deck3 = {"kind": "deck", "slides": [{"shapes": [tb(1), blank, tb(3)], "notes": []}, {"shapes": [blank], "notes": []},
+                                        {"shapes": [blank, tb(5)], "notes": []}]}
+    jobs += [{"doc": deck3, "fmt": f} for f in ("pptx", "odp")]
+    def ftb(a):
+        return ["tbl", [[cell(a), cell(a + 1)]]]
+    for blocks in ([ftb(1), ["p", [["r", 9]]], blank, ["p", [["r", 8]]], ftb(3)], [blank, ["p", [["r", 9]]], ftb(1)]):
+        d = flow_doc(blocks)
+        jobs += [{"doc": d, "fmt": f} for f in FLOW_FORMATS if f in TABLE_FORMATS and expressible(d, f)]
+    ndocs += 8
     ctx.log(f"{ndocs} documents, {len(jobs)} (document, format) extractions")
     traces = run_suite(ctx, jobs, _events, "tables")
     for t in traces:
